@@ -1,6 +1,7 @@
 (* C06: tasks are idempotent and independent of order, repetition and placement. *)
 
 From CubedV Require Import Model.Util Model.Keys Model.Exec Model.ExecObs Proofs.ExecProofs.
+From CubedV Require Import Model.Geometry Proofs.GeometryProofs.
 From Coq Require Import Permutation.
 
 
@@ -32,3 +33,13 @@ Example C06_side_conditions_checkable : oplan_ok [[([(0,[0])], [(1,[0])]); ([(0,
 Proof. reflexivity. Qed.
 Example C06_side_conditions_reject_shared_chunk : oplan_ok [[([(0,[0])], [(1,[0])]); ([(0,[0])], [(1,[0])])]] = false.
 Proof. reflexivity. Qed.
+
+(* random arrays: the Philox key of a block is root_seed + block_id_to_offset(block_id, numblocks) (= ravel, tied to the real
+   _random by the correspondence random_stream_ids): distinct blocks of the grid draw from distinct streams *)
+Theorem C06_distinct_blocks_distinct_streams : forall root nb b b', Forall2 lt b nb -> Forall2 lt b' nb ->
+  b <> b' -> root + ravel nb b <> root + ravel nb b'.
+Proof. exact (distinct_blocks_distinct_streams). Qed.
+Print Assumptions C06_distinct_blocks_distinct_streams.
+
+Example C06_stream_ids_2x2x2 : map (ravel [2; 2; 2]) (blocks [2; 2; 2]) = [0; 1; 2; 3; 4; 5; 6; 7].
+Proof. vm_compute; reflexivity. Qed.
